@@ -191,7 +191,7 @@ def signature(draw, u):
         else:
             t = ["struct", "St1", [None]]
         params.append(["p%d" % i, t])
-    rk = draw(st.sampled_from(["ref0", "refA", "refA", "boxA", "st1", "slice", "optrefA", "resbox", "resref", "st2", "boxAB", "optst1"]))
+    rk = draw(st.sampled_from(["ref0", "refA", "refA", "boxA", "st1", "slice", "optrefA", "resbox", "resref", "st2", "boxAB", "optst1", "reserr", "reserrst"]))
     r1, r2 = draw(pick), draw(pick)
     if rk == "ref0":
         ret = ["ref", r1, "Op", []]
@@ -211,6 +211,10 @@ def signature(draw, u):
         ret = ["result", ["box", "OpA", [r1]], None]
     elif rk == "resref":
         ret = ["result", ["ref", r1, "Op", []], ["struct", "St1", [r2]]]
+    elif rk == "reserr":
+        ret = ["result", None, ["ref", r1, "OpA", [r2]]]       # unit success, only the error borrows
+    elif rk == "reserrst":
+        ret = ["result", None, ["struct", "St1", [r1]]]
     elif rk == "st2":
         ret = ["struct", "St2", [r1, r2]]
     else:
